@@ -77,6 +77,9 @@ func traces(f *core.Fn, g *core.Graph, cl classifier, limit int) ([]trace, bool)
 	}
 	var out []trace
 	for _, path := range paths {
+		if !feasible(info, g, path) {
+			continue
+		}
 		t := trace{path: path, errTaken: map[types.Object]bool{}, outcome: "end"}
 		for i, n := range path {
 			node := g.Nodes[n]
